@@ -4,6 +4,8 @@ import (
 	"fmt"
 	"sort"
 	"strings"
+
+	"github.com/Shopify/sarama"
 )
 
 // Oracles for C08 (valid assignment) and C13 (balance / stickiness), evaluated on the leader's
@@ -22,6 +24,17 @@ func (gs *groupScen) onPlan(mg *mgroup, rec *genRecord) {
 				m.mu.Lock()
 				since = m.consumeInvokeUs
 				m.mu.Unlock()
+				// a response computed earlier (background refresher, another connection) that reached the client
+				// after that moment - or has not arrived yet - may have overwritten the fresher view
+				since0 := since
+				for _, ms := range gs.metaServed[m.idx+1] {
+					ms.conn.mu.Lock()
+					d, ok := ms.conn.deliveredAt[ms.corr]
+					ms.conn.mu.Unlock()
+					if (!ok || d >= since0) && ms.serveUs < since {
+						since = ms.serveUs
+					}
+				}
 			}
 		}
 	}
@@ -137,7 +150,7 @@ func (gs *groupScen) onPlan(mg *mgroup, rec *genRecord) {
 				ids = append(ids, int(p))
 			}
 			sort.Ints(ids)
-			r.violate("C08.unassigned", "generation %d (%s): topic %s (partition counts it has had: %v) has assigned partitions %v: some partition of a subscribed topic is left unassigned", gen, gs.strategy, t, counts, ids)
+			r.violate("C08.unassigned", "generation %d (%s): topic %s (partition counts it has had: %v) has assigned partitions %v: some partition of a subscribed topic is left unassigned; plan %s; inputs: %s", gen, gs.strategy, t, counts, ids, fmtPlan(rec), fmtPlanInputs(rec))
 		}
 	}
 
@@ -341,4 +354,27 @@ func (gs *groupScen) checkSticky(mg *mgroup, rec *genRecord, owner map[string]st
 			}
 		}
 	}
+}
+
+
+// fmtPlanInputs renders what the members sent with JoinGroup for a generation: subscription and, for the sticky
+// strategy, the previous assignment and generation carried in the user data.
+func fmtPlanInputs(rec *genRecord) string {
+	var out []string
+	for _, id := range rec.members {
+		line := fmt.Sprintf("%s subscribes %v", id, rec.subs[id])
+		if topics, gen, ok := sarama.VerifStickyUserData(rec.userData[id]); ok {
+			var ts []string
+			for t := range topics {
+				ts = append(ts, t)
+			}
+			sort.Strings(ts)
+			line += fmt.Sprintf(" previous(gen %d):", gen)
+			for _, t := range ts {
+				line += fmt.Sprintf(" %s%v", t, topics[t])
+			}
+		}
+		out = append(out, line)
+	}
+	return strings.Join(out, "; ")
 }
